@@ -93,6 +93,19 @@ PROPS = {
         "assumptions": ["downstream services are spec-conformant executors over their own schema (simulators, checked against Gql/RefExec.v per request)",
                         "gqlparser's validation of client queries is taken as given (only validated operations are emitted)"] + ["strconv.IsPrint is an oracle: bytes >= 0x80 are assumed to belong to printable runes (the harness only uses such runes)"],
     },
+    "C07": {
+        "harness": [{"name": "c07"}],
+        "n_quick": 150, "n_thorough": 3000,
+        "assumptions": ["the federation generator's output is checked with ValidateSchema/LoadSchema before use; a rejected draw is counted, never reported",
+                        "built-in types and the standard scalars are left out of the model's schemas"],
+        "partial": "Implements/PossibleTypes recomputation is compared through the order-free schema signature on the Go side, not modelled in Coq",
+    },
+    "C08": {
+        "harness": [{"name": "c08"}],
+        "n_quick": 150, "n_thorough": 3000,
+        "assumptions": ["poll completion order is forced with per-service delays in the scripted transport (two orders per case)"],
+        "partial": "permutation invariance of the left fold is established per case by enumerating all n! orders (n <= 4), not by a theorem",
+    },
 }
 
 # ---- manifest texts ------------------------------------------------------------------------------------
@@ -167,6 +180,16 @@ META = {
         "text": "Theorem C14_string_roundtrip_partial: for EVERY byte string free of the bytes whose Go escape is not a GraphQL escape, the GraphQL string lexer reads back from strconv.Quote's output exactly the string (proved by induction over the string with a 256-way case analysis per byte); C14_refuted_go_escapes shows each excluded byte alone breaks it; C14_literal_arrives_partial / C14_refuted_space_runs cover the whitespace collapse inside lookups. These transformations are part of the gateway model (every outgoing document is 'printed and lexed'), so the correspondence checks them on every run: hostile strings (whitespace runs, quotes, backslashes, control bytes, non-ASCII) as literals, variables and entity ids, through echo resolvers at the simulators; the values coming back must equal the reference executor's.",
         "note": "Two recorded findings (Go escapes, space runs) with their guards. Variable declaration/forwarding is checked by prop.c15.vars_exact on every stream.",
         "technique": "Coq codec theorem (induction + exhaustive byte analysis) + refutations; echo resolvers; differential correspondence",
+    },
+    "C07": {
+        "text": "Model of merge.go (MergeSchemas, mergeTypes, namespace and boundary object merging, and the three table builders) in Model/Merge.v. Theorems: the fields of a merged shared type are exactly the union of both sides' fields minus the key (C07_shared_type_fields_are_the_union); nothing enters by silent resolution of a conflict (C07_nothing_enters_by_silent_resolution). Tie + oracle on every run: random federations generated from an annotated monolith and split by the documented rules; the model's merged schema and Locations/IsBoundary/BoundaryQueries must equal what the real code published after polling; the published schema must equal the monolith the services were split from (types, kinds, fields, arguments with defaults, nullability, interfaces, members, enum values), contain no plumbing, and every field must have exactly one declaring service to which Locations routes it.",
+        "note": "Validity of the merged schema is established by comparison with the (gqlparser-loaded) monolith. Full completeness/soundness of the fold over n schemas is not yet a theorem.",
+        "technique": "Coq model + fold-invariant proofs; generated federations; monolith oracle; differential correspondence of merged schema and routing tables",
+    },
+    "C08": {
+        "text": "Theorem C08_conflict_fails: for ALL pairs of schemas, if the accumulated schema and the new one define the same name and the pair is a conflict (different kinds; a non-shared object/interface/union/enum/input defined twice; boundary vs plain; namespace vs boundary; non-object federation type) the pairwise merge fails, wherever the definition sits and whatever else the schemas contain (induction over the fold with an invariant on the accumulator); C08_overlapping_boundary_field_fails for the field-level conflict. Order independence is decided per case: all n! merge orders (n <= 4) through the real MergeSchemas must give the same outcome and the same order-free schema signature; the routing tables after polling must not depend on the poll completion order (two forced orders); 35% of the cases carry one injected conflict of 10 kinds, which every order must reject.",
+        "note": "Permutation invariance is exhaustively enumerated per case, not proved for all n.",
+        "technique": "Coq fold-invariant proof of conflict rejection + exhaustive enumeration of merge orders on generated federations + model correspondence",
     },
 }
 
